@@ -3,7 +3,7 @@
     Proofs/. Quantification: all boolean vectors of rain / fast-increment flags
     of equal length, hence all loaded datasets and all thresholds. *)
 From Spowtd Require Import Model.Mystery Proofs.RunsSpec Proofs.MysterySpec
-  Generated.MysteryGen Proofs.MysteryGenSpec.
+  Generated.MysteryGen Proofs.MysteryGenSpec Proofs.InterstormRecordSpec.
 
 (** The "unexplained rise" flag of sample i is off iff some sample r <= i had
     rain and samples r+1..i are rain-free and end no fast increment. *)
@@ -66,6 +66,32 @@ Theorem C04_first_sample_not_interstorm : forall jump rain,
   length jump = length rain -> nth 0 (interstorm_flags jump rain) false = false.
 Proof. exact interstorm_first_false. Qed.
 Print Assumptions C04_first_sample_not_interstorm.
+
+(** The first sentence of the property on the record itself (no flags in the
+    statement): (a, b) is recorded iff it has at least two samples, every sample
+    of it is clean (rain-free, rain earlier in the stretch, no rain and no fast
+    increment since that rain), and neither neighbour is clean (maximal).  Left
+    to right is "every recorded interval is ..."; right to left is "every
+    stretch meeting these conditions is recorded". *)
+Theorem C04_intervals_on_the_record : forall jump rain a b,
+  length jump = length rain ->
+  (In (a, b) (interstorm_intervals jump rain) <->
+   a < b /\ b < length rain /\
+   (forall i, a <= i -> i <= b -> clean_sample jump rain i) /\
+   (a = 0 \/ ~ clean_sample jump rain (a - 1)) /\
+   (S b = length rain \/ ~ clean_sample jump rain (S b))).
+Proof. exact interstorm_intervals_on_the_record. Qed.
+Print Assumptions C04_intervals_on_the_record.
+
+(** One witness of earlier rain serves the whole interval: it lies before the
+    interval, and nothing between it and the interval's last sample is rainy or
+    ends a fast increment. *)
+Theorem C04_interval_rain_before_none_inside : forall jump rain a b,
+  length jump = length rain -> In (a, b) (interstorm_intervals jump rain) ->
+  (forall i, a <= i -> i <= b -> nth i rain false = false) /\
+  (exists r, r < a /\ nth r rain false = true /\ quiet jump rain r b).
+Proof. exact interval_has_rain_before_and_none_inside. Qed.
+Print Assumptions C04_interval_rain_before_none_inside.
 
 (** Non-vacuity: a record with rain, a quiet recession, a dry fast increment
     (flagged as unexplained until the next rain) and a second recession. *)
